@@ -40,7 +40,7 @@ ASSUMPTIONS = [
     "when an index expression of slices/lists addresses exactly one cell the bare array or a "
     "one-element list is accepted; the result's shape convention (ints do not drop axes) is not "
     "compared, only the addressed cells in row-major order",
-    "empty selections, the fields/units property setters and removing every field are not generated",
+    "empty selections and removing every field are not generated",
 ]
 COMPONENTS_REAL = ["quantem.core.datastructures.vector (Vector, _FieldView, nested_list)",
                    "quantem.core.utils.validators (vector validators)"]
@@ -52,9 +52,11 @@ EXPECTED_PROBES = ["ndim1", "ndim2", "ndim3", "unset_cell_read", "zero_row_cell"
                    "single_cell_via_slice", "integer_cell_field_op", "negative_int_index",
                    "numpy_int_index", "cell_with_many_rows", "dim_ge_8", "fields_ge_5",
                    "field_assigned_from_field_view_other_field", "flat_restore",
-                   "flat_restore_single_populated_cell"]
+                   "flat_restore_single_populated_cell", "setter_fields", "setter_units",
+                   "rejected_fields_setter_count", "rejected_fields_setter_dup", "rejected_units_setter_count"]
 
 OPS = ["set_cell", "get_cell", "slice_get", "slice_set", "field_op", "flatten", "set_flat", "flat_restore",
+       "rename",
        "add_fields", "remove_fields", "copy_check", "metadata", "second_vector", "rejected",
        "recreate", "continue_on_copy"]
 _V = None
@@ -137,6 +139,10 @@ def _gen_op(r, kinds):
                 # what stands on the right-hand side: a fresh array, a list, the view of ANOTHER field
                 # of the same vector, or a field view of an independent copy
                 "src": r.fork("src").pick(["array", "array", "list", "view_same", "view_other"])}
+    if k == "rename":
+        # the fields / units property setters: same count, unique names
+        return {"op": k, "which": r.pick(["fields", "fields", "units"]), "tag": r.randrange(1000),
+                "form": r.pick(["list", "tuple"])}
     if k == "flat_restore":
         # snapshot = flatten(); mutate the field; write the snapshot back: the data must be restored
         return {"op": k, "f": r.randrange(100), "sym": r.pick(["+", "*", "-"]), "x": r.pick([2, 3, 7, -1.5]),
@@ -155,7 +161,8 @@ def _gen_op(r, kinds):
     if k == "rejected":
         return {"op": k, "what": r.pick(["wrong_columns", "duplicate_field", "out_of_range",
                                          "wrong_type", "wrong_count", "wrong_columns_slice",
-                                         "wrong_nindex"]),
+                                         "wrong_nindex", "fields_setter_count", "fields_setter_dup",
+                                         "units_setter_count"]),
                 "idx": [r.randrange(100) for _ in range(3)], "index": _gen_index(r)}
     if k == "recreate":
         return _gen_create(r)
@@ -657,6 +664,25 @@ def run(plan):
                             cur += c.shape[0]
                     n_mut[0] += 1
                 check_all("set_flat")
+            elif k == "rename":
+                bump(probes, "setter_" + op["which"])
+                if op["which"] == "fields":
+                    new = [f"r{op['tag']}_{q}" for q in range(m.nf)]
+                else:
+                    new = [f"unit{op['tag']}_{q}" for q in range(m.nf)]
+                arg = tuple(new) if op["form"] == "tuple" else list(new)
+                try:
+                    setattr(v, op["which"], arg)
+                except Exception as e:
+                    viol("op_raised", f"{op['which']} setter with {arg!r} raised {e!r}",
+                         f"op_raised:setter:{op['which']}:{sigs}")
+                    continue
+                if op["which"] == "fields":
+                    m.fields = list(new)
+                else:
+                    m.units = list(new)
+                n_mut[0] += 1
+                check_all("rename")
             elif k == "flat_restore":
                 j = op["f"] % m.nf
                 f = m.fields[j]
@@ -876,11 +902,30 @@ def run(plan):
                     elif what == "wrong_nindex":
                         exp = ValueError
                         v.get_data(*(list(idx) + [0]))
+                    elif what == "fields_setter_count":
+                        exp = ValueError
+                        n_new = m.nf + 1 if op["idx"][0] % 2 else max(0, m.nf - 1)
+                        v.fields = [f"w{q}" for q in range(n_new)]
+                    elif what == "fields_setter_dup":
+                        exp = ValueError
+                        if m.nf < 2:
+                            continue
+                        v.fields = ["same"] * m.nf
+                    elif what == "units_setter_count":
+                        exp = ValueError
+                        v.units = ["u"] * (m.nf + 1 + op["idx"][0] % 2)
                     raised = None
                 except Exception as e:
                     raised = e
                 if raised is None:
                     viol("rejected_op_accepted", f"{what} did not raise", f"rejected_accepted:{what}:{sigs}")
+                    if what.endswith("_setter_count") or what.endswith("_setter_dup"):
+                        # the vector now contradicts itself (names vs columns): nothing to continue
+                        if any(c is not None and c.shape[1] != v.num_fields for c in m.cells.values()):
+                            viol("cell_invariant", f"after {what} was accepted: num_fields="
+                                 f"{v.num_fields}, fields={v.fields}, units={v.units}, populated cells "
+                                 f"have {m.nf} columns", f"cell_invariant:{what}:{sigs}")
+                        raise _Stop()
                     resync("v")
                 else:
                     bump(probes, f"rejected_{what}")
